@@ -6,6 +6,7 @@ same shape as the one the harness prints from the real AST (`harness/src/bin/fmt
 import Driver.Text
 import Aldrin.Model.Schema.Parse
 import Aldrin.Model.Schema.Fmt
+import Aldrin.Lemmas.Schema.ValidSound
 
 namespace Aldrin.Driver
 open Aldrin Aldrin.Schema
@@ -107,6 +108,19 @@ def schemaCmd (cmd : String) (args : List String) : Option String :=
     let src ← decodeSource h
     pure (match parseSchema src with
       | some s => "ok " ++ utf8Hex (format s)
+      | none => "err")
+  | "sval", [] => some (match parseSchema [] with | some _ => "ok 1" | none => "err")
+  | "sval", [h] => do
+    -- the premises of `format_parses_back` for what the parser produced: well-formedness, and fuel for the
+    -- formatted text; and its conclusion, evaluated
+    let src ← decodeSource h
+    pure (match parseSchema src with
+      | some s =>
+        let okValid := validSchemaB s
+        let okFuel := decide (schemaFuel s ≤ (format s).length + 2)
+        let okBack := parseSchema (format s) == some (canonSchema s)
+        if okValid && okFuel && okBack then "ok 1"
+        else "ok 0 valid=" ++ toString okValid ++ " fuel=" ++ toString okFuel ++ " back=" ++ toString okBack
       | none => "err")
   | _, _ => none
 
